@@ -68,12 +68,12 @@ def exhaustive(res, tier, wd):
             r, out = tlc("MC_Queue", cfgfile(wd, "mc-" + policy, consts(2, policy=policy)), wd, workers=4, timeout=1200, tag="pol" + policy)
             return r
         return tlc_cached("queue-policy-" + policy, go, deps=QDEPS)
-    for pol in ("legacy", "nohelper", "blocking-emit"):
+    for pol in ("legacy", "nohelper", "blocking-emit", "flush-in-emit"):
         r = legacy(pol)
         if not r["violated"]:
             raise ToolError("stop policy %s is not refuted by TLC: the properties cannot fail" % pol)
         res.notes["policy_" + pol] = "refuted: %s" % r["violated"]
-    log("[E] model mutants refuted by TLC: legacy (D2), nohelper (D3), blocking-emit (C10)")
+    log("[E] model mutants refuted by TLC: legacy (D2), nohelper (D3), blocking-emit (C10), flush-in-emit (C10)")
 
 
 def judge(res, verdict, events, origin):
@@ -202,18 +202,20 @@ def replay_behaviours(res, tier, seed, wd):
     if n == 0:
         raise ToolError("TLC exported no queue behaviours")
     # vacuity: the interesting histories must be present
-    helper = quiet_then_emit = panic_pending_stop = 0
+    helper = quiet_then_emit = panic_pending_stop = delegate = 0
     for l in open(beh):
         acts = [s["a"] for s in json.loads(l)["steps"]]
+        if "Delegate" in acts:
+            delegate += 1
         if "SpawnHelper" in acts:
             helper += 1
         if "DropQuiet" in acts and "EmitStart" in acts[acts.index("DropQuiet"):]:
             quiet_then_emit += 1
         if "StopTry" in acts and "TaskPanic" in acts[acts.index("StopTry"):]:
             panic_pending_stop += 1
-    if helper == 0 or quiet_then_emit == 0 or panic_pending_stop == 0:
-        raise ToolError("behaviour set is missing required histories: helper=%d clone-drop-then-emit=%d panic-with-stop-pending=%d" % (
-            helper, quiet_then_emit, panic_pending_stop))
+    if helper == 0 or quiet_then_emit == 0 or panic_pending_stop == 0 or delegate == 0:
+        raise ToolError("behaviour set is missing required histories: helper=%d clone-drop-then-emit=%d panic-with-stop-pending=%d flush/stats-delegation=%d" % (
+            helper, quiet_then_emit, panic_pending_stop, delegate))
     trA = os.path.join(wd, "trace-qreplay.ndjson")
     s, _ = cvh(["queue-replay", "--in", beh, "--out", trA, "--maxdiv", 4 if tier == "quick" else 30], timeout=3000)
     log("[A] %d TLC behaviours (%d steps) replayed on the real sink under the cooperative scheduler: %d model divergences "
@@ -226,6 +228,7 @@ def replay_behaviours(res, tier, seed, wd):
     res.notes["behaviours_with_full_queue_last_drop"] = helper
     res.notes["behaviours_with_clone_drop_then_emit"] = quiet_then_emit
     res.notes["behaviours_with_panic_while_stop_pending"] = panic_pending_stop
+    res.notes["behaviours_with_flush_stats_delegation"] = delegate
     sm = s["sample"]
     res.sample({"kind": "TLC behaviour replayed step by step", "cap": sm["cap"], "steps": [x["a"] for x in sm["steps"]][:40]})
     return trA, s["behaviours"]
